@@ -479,11 +479,13 @@ func (g *c13Gen) dir(path []string, depth int, fan int) {
 			n.Type = "dir"
 		case k < 70 || fan > 40 && k < 90:
 			n.Type = "file"
-			switch g.rng.Intn(8) {
-			case 0:
+			switch g.rng.Intn(40) {
+			case 0, 1, 2, 3:
 				n.Size = 0
-			case 1:
+			case 4:
 				n.Size = g.rng.Intn(65537)
+			case 5, 6, 7:
+				n.Size = g.rng.Intn(4097)
 			default:
 				n.Size = g.rng.Intn(300)
 			}
@@ -982,7 +984,8 @@ func c13LibTar(dir string) (b []byte, err error) {
 
 // c13BuildTar writes the nodes as a PAX tar stream: directories before their content, children
 // in byte order (sorted) or in generation order (a stream as tar tools produce it: readdir order).
-func c13BuildTar(nodes []c13Node, sorted bool) ([]byte, error) {
+func c13BuildTar(nodes []c13Node, sorted bool) ([]byte, []int, error) {
+	var emitted []int
 	kids := map[string][]int{}
 	for i := range nodes {
 		if len(nodes[i].Path) == 0 {
@@ -996,6 +999,7 @@ func c13BuildTar(nodes []c13Node, sorted bool) ([]byte, error) {
 	var emit func(i int) error
 	emit = func(i int) error {
 		n := &nodes[i]
+		emitted = append(emitted, i)
 		name := "./" + c13unhexRaw(n.Path)
 		h := &tar.Header{Name: name, Uid: n.UID, Gid: n.GID, Mode: int64(n.Mode), ModTime: time.Unix(0, n.Mtime), Format: tar.FormatPAX}
 		if len(n.Xattrs) > 0 {
@@ -1053,12 +1057,12 @@ func c13BuildTar(nodes []c13Node, sorted bool) ([]byte, error) {
 		return nil
 	}
 	if err := emit(0); err != nil {
-		return nil, err
+		return nil, nil, err
 	}
 	if err := tw.Close(); err != nil {
-		return nil, err
+		return nil, nil, err
 	}
-	return buf.Bytes(), nil
+	return buf.Bytes(), emitted, nil
 }
 
 func c13unhexRaw(p []string) string {
@@ -1203,11 +1207,15 @@ func c13CheckArchive(a vh.Args, o *vh.Oracle, r *vh.Result, c *c13Case, id int) 
 			return err
 		}
 		c13Judge(r, c, out, want, order, "disk source")
-		if err := c13ModelArchive(o, r, c, catar, out); err != nil {
+		spec, err := c13SpecFromSnapshot(tree, want, order)
+		if err != nil {
+			return err
+		}
+		if err := c13ModelArchive(o, r, c, work, catar, out, spec); err != nil {
 			return err
 		}
 	case "tar-sorted", "tar-unsorted":
-		tb, err := c13BuildTar(c.Nodes, c.Source == "tar-sorted")
+		tb, emitted, err := c13BuildTar(c.Nodes, c.Source == "tar-sorted")
 		if err != nil {
 			return err
 		}
@@ -1226,14 +1234,245 @@ func c13CheckArchive(a vh.Args, o *vh.Oracle, r *vh.Result, c *c13Case, id int) 
 			return err
 		}
 		c13Judge(r, c, out, want, order, "tar-stream source ("+c.Source+")")
+		if err := c13ModelArchive(o, r, c, work, catar, out, c13SpecFromNodes(c.Nodes, emitted)); err != nil {
+			return err
+		}
 	default:
 		return fmt.Errorf("unknown source %q", c.Source)
 	}
 	return nil
 }
 
-// c13ModelArchive: hook for the extracted validator (filled in once Model/Tar.v is extracted).
-var c13ModelArchive = func(o *vh.Oracle, r *vh.Result, c *c13Case, catar string, py *c13PyOut) error { return nil }
+// ---- the extracted models on whole archives
+
+type c13SpecNode struct {
+	depth  int
+	typ    string
+	perm   uint32
+	uid    uint64
+	gid    uint64
+	mtime  uint64
+	name   []byte
+	extra  string
+	xattrs map[string]string
+}
+
+func c13SpecFromSnapshot(tree string, want map[string]*c13Want, order []string) ([]c13SpecNode, error) {
+	var out []c13SpecNode
+	for _, p := range order {
+		w := want[p]
+		var comps []string
+		if p != "" {
+			comps = strings.Split(p, "/")
+		}
+		sn := c13SpecNode{depth: len(comps), typ: w.Type, perm: w.Mode, uid: w.UID, gid: w.GID, mtime: w.Mtime, xattrs: w.Xattrs, extra: "-"}
+		if len(comps) > 0 {
+			sn.name, _ = hex.DecodeString(comps[len(comps)-1])
+		}
+		switch w.Type {
+		case "file":
+			b, err := os.ReadFile(c13FsPath(tree, comps))
+			if err != nil {
+				return nil, err
+			}
+			sn.extra = vh.Hex(b)
+		case "symlink":
+			sn.extra = w.Target
+			if sn.extra == "" {
+				sn.extra = "-"
+			}
+		case "char", "block":
+			sn.extra = fmt.Sprintf("%d:%d", w.Major, w.Minor)
+		}
+		out = append(out, sn)
+	}
+	return out, nil
+}
+
+func c13SpecFromNodes(nodes []c13Node, emitted []int) []c13SpecNode {
+	var out []c13SpecNode
+	for _, i := range emitted {
+		n := &nodes[i]
+		sn := c13SpecNode{depth: len(n.Path), typ: n.Type, perm: n.Mode, uid: uint64(n.UID), gid: uint64(n.GID), mtime: uint64(n.Mtime), xattrs: map[string]string{}, extra: "-"}
+		for k, v := range n.Xattrs {
+			if v != "" {
+				sn.xattrs[k] = v
+			}
+		}
+		if len(n.Path) > 0 {
+			sn.name, _ = hex.DecodeString(n.Path[len(n.Path)-1])
+		}
+		switch n.Type {
+		case "file":
+			sn.extra = vh.Hex(c13Content(n))
+		case "symlink":
+			sn.extra = n.Target
+		case "char", "block":
+			sn.extra = fmt.Sprintf("%d:%d", n.Major, n.Minor)
+		}
+		out = append(out, sn)
+	}
+	return out
+}
+
+func c13WriteSpec(path string, spec []c13SpecNode) error {
+	var sb strings.Builder
+	for _, n := range spec {
+		xs := "-"
+		if len(n.xattrs) > 0 {
+			var kv []string
+			for k, v := range n.xattrs {
+				if v == "" {
+					v = "-"
+				}
+				kv = append(kv, k+"="+v)
+			}
+			sort.Strings(kv) // any order: the model sorts, as tar.go does with the map keys
+			xs = strings.Join(kv, ",")
+		}
+		fmt.Fprintf(&sb, "%d %s %d %d %d %d %s %s %s\n", n.depth, n.typ, n.perm, n.uid, n.gid, n.mtime, vh.Hex(n.name), n.extra, xs)
+	}
+	return os.WriteFile(path, []byte(sb.String()), 0644)
+}
+
+// c13ParseListing turns the oracle's listing into validator nodes.
+func c13ParseListing(s string) ([]c13PyNode, error) {
+	var out []c13PyNode
+	for _, ns := range strings.Split(s, ";") {
+		f := strings.Split(ns, "|")
+		if len(f) != 8 {
+			return nil, fmt.Errorf("bad listing node %q", ns)
+		}
+		n := c13PyNode{PathHex: f[0], Type: f[1], Xattrs: map[string]string{}}
+		if n.PathHex == "." {
+			n.PathHex = ""
+		}
+		perm, _ := strconv.ParseUint(f[2], 10, 32)
+		n.Mode = uint32(perm)
+		n.UID, _ = strconv.ParseUint(f[3], 10, 64)
+		n.GID, _ = strconv.ParseUint(f[4], 10, 64)
+		n.Mtime, _ = strconv.ParseUint(f[5], 10, 64)
+		switch n.Type {
+		case "dir":
+			k, _ := strconv.Atoi(strings.TrimPrefix(f[6], "n"))
+			n.Entries = &k
+		case "file":
+			p := strings.SplitN(f[6], ":", 2)
+			sz, _ := strconv.ParseInt(p[0], 10, 64)
+			n.Size = &sz
+			n.Sha256 = p[1]
+		case "symlink":
+			t := f[6]
+			if t == "-" {
+				t = ""
+			}
+			n.Target = &t
+		case "char", "block":
+			p := strings.SplitN(f[6], ":", 2)
+			ma, _ := strconv.ParseUint(p[0], 10, 64)
+			mi, _ := strconv.ParseUint(p[1], 10, 64)
+			n.Major, n.Minor = &ma, &mi
+		}
+		if f[7] != "-" {
+			for _, kv := range strings.Split(f[7], ",") {
+				p := strings.SplitN(kv, "=", 2)
+				v := p[1]
+				if v == "-" {
+					v = ""
+				}
+				n.Xattrs[p[0]] = v
+			}
+		}
+		out = append(out, n)
+	}
+	return out, nil
+}
+
+func c13NodeKey(n *c13PyNode) string {
+	s := fmt.Sprintf("%s|%s|%o|%d|%d|%d|", n.PathHex, n.Type, n.Mode, n.UID, n.GID, n.Mtime)
+	if n.Size != nil {
+		s += fmt.Sprintf("size=%d sha=%s", *n.Size, n.Sha256)
+	}
+	if n.Target != nil {
+		s += "target=" + *n.Target
+	}
+	if n.Major != nil {
+		s += fmt.Sprintf("dev=%d:%d", *n.Major, *n.Minor)
+	}
+	if n.Entries != nil {
+		s += fmt.Sprintf("entries=%d", *n.Entries)
+	}
+	ks := make([]string, 0, len(n.Xattrs))
+	for k, v := range n.Xattrs {
+		ks = append(ks, k+"="+v)
+	}
+	sort.Strings(ks)
+	return s + "|" + strings.Join(ks, ",")
+}
+
+// c13ModelArchive runs the extracted format-rule reader on the archive (verdict and listing must
+// agree with the python validator) and the extracted tar() model on the source tree (its bytes
+// must be the implementation's bytes).
+func c13ModelArchive(o *vh.Oracle, r *vh.Result, c *c13Case, work, catar string, py *c13PyOut, spec []c13SpecNode) error {
+	if o == nil {
+		return nil
+	}
+	ans, err := o.Call("c13.validate", catar)
+	if err != nil {
+		return err
+	}
+	r.Corr()
+	ok := strings.HasPrefix(ans, "OK ")
+	if ok != py.OK {
+		d := *c
+		d.Detail = fmt.Sprintf("extracted reader: %s, python validator ok=%v", c13Trunc(ans), py.OK)
+		r.Fail("corr", "corr:C13/validate-verdict", "the extracted format-rule reader and the python validator disagree on an archive", &d)
+	} else if ok {
+		nodes, err := c13ParseListing(strings.TrimPrefix(ans, "OK "))
+		if err != nil {
+			return err
+		}
+		r.Corr()
+		bad := ""
+		if len(nodes) != len(py.Nodes) {
+			bad = fmt.Sprintf("%d nodes vs %d", len(nodes), len(py.Nodes))
+		} else {
+			for i := range nodes {
+				if a, b := c13NodeKey(&nodes[i]), c13NodeKey(&py.Nodes[i]); a != b {
+					bad = "extracted: " + c13Trunc(a) + " python: " + c13Trunc(b)
+					break
+				}
+			}
+		}
+		if bad != "" {
+			d := *c
+			d.Detail = bad
+			r.Fail("corr", "corr:C13/validate-listing", "the extracted reader and the python validator read different trees from an archive", &d)
+		}
+	}
+	if spec != nil {
+		sf := filepath.Join(work, "tree.spec")
+		if err := c13WriteSpec(sf, spec); err != nil {
+			return err
+		}
+		ans, err := o.Call("c13.tar", sf)
+		if err != nil {
+			return err
+		}
+		b, err := os.ReadFile(catar)
+		if err != nil {
+			return err
+		}
+		sum := sha256.Sum256(b)
+		r.Corr()
+		if want := fmt.Sprintf("%d %s", len(b), hex.EncodeToString(sum[:])); ans != want {
+			d := *c
+			d.Detail = "model: " + ans + " implementation: " + want
+			r.Fail("corr", "corr:C13/tar-bytes", "the tar() model and desync tar write different archives for the same tree", &d)
+		}
+	}
+	return nil
+}
 
 // ---------------------------------------------------------------- driver
 
@@ -1351,7 +1590,7 @@ func runC13(a vh.Args, o *vh.Oracle, r *vh.Result) error {
 	ndisk, ntar := 24, 10
 	big := 300
 	if thorough {
-		ndisk, ntar, big = 160, 60, 5000
+		ndisk, ntar, big = 90, 30, 5000
 	}
 	id := 0
 	for i := 0; i < ndisk; i++ {
@@ -1359,8 +1598,10 @@ func runC13(a vh.Args, o *vh.Oracle, r *vh.Result) error {
 		switch {
 		case i == 1:
 			bd = big
+		case i%6 == 2 && i < 30:
+			bd = 1 + rng.Intn(big) // a few anywhere up to the tier's maximum
 		case i%6 == 2:
-			bd = 1 + rng.Intn(big)
+			bd = 1 + rng.Intn(600)
 		case i%6 == 4:
 			bd = []int{2, 3, 4, 5, 6, 7, 8, 9, 10, 11, 12, 13, 15, 16, 17, 31, 32, 33, 47, 48, 63, 64, 65, 95, 96, 127, 128}[rng.Intn(27)]
 		}
@@ -1374,7 +1615,10 @@ func runC13(a vh.Args, o *vh.Oracle, r *vh.Result) error {
 	for i := 0; i < ntar; i++ {
 		bd := 0
 		if i%4 == 1 {
-			bd = 1 + rng.Intn(big)
+			bd = 1 + rng.Intn(600)
+			if i == 1 {
+				bd = 1 + rng.Intn(big)
+			}
 		}
 		nodes := c13GenTree(rng.Fork(), bd, false, i%3 == 0)
 		src := "tar-sorted"
